@@ -8,6 +8,7 @@ import (
 	"os"
 	"path/filepath"
 	"sort"
+	"strconv"
 	"strings"
 	"sync"
 	"time"
@@ -62,6 +63,7 @@ func discharge(fx *FnExec, obls []*Obligation, opt dischargeOpts) {
 	}
 	var jobs []job
 	c := fx.c
+	rngMemo := map[*Term]bool{}
 	for _, o := range obls {
 		goal := c.Implies(o.PC, o.Goal)
 		if goal.IsTrue() {
@@ -83,6 +85,18 @@ func discharge(fx *FnExec, obls []*Obligation, opt dischargeOpts) {
 				valNames = append(valNames, v.Name)
 			}
 		}
+		if isSafetyKind(o.Kind) && !mentionsRng(goal, rngMemo) {
+			// relevance filter (dropping hypotheses is always sound): facts about abstract byte strings
+			// cannot matter to a bounds / nil / arithmetic goal that mentions none, and they slow the
+			// bit-vector search down considerably
+			var keep []*Term
+			for _, a := range o.Assume {
+				if !mentionsRng(a, rngMemo) {
+					keep = append(keep, a)
+				}
+			}
+			o.Assume = keep
+		}
 		script := c.Query(o.Assume, goal, nil, opt.timeoutMs)
 		modelScript, gvs := c.QueryGV(o.Assume, goal, vals, opt.timeoutMs)
 		o.GVKeys = map[string]string{}
@@ -94,6 +108,22 @@ func discharge(fx *FnExec, obls []*Obligation, opt dischargeOpts) {
 		var alts []string
 		for _, alt := range o.Alts {
 			alts = append(alts, c.Query(o.Assume, c.Implies(o.PC, alt), nil, opt.timeoutMs))
+		}
+		if o.Cover {
+			// fallback for a cover the solvers cannot decide with the quantified facts present: the same
+			// query over the quantifier-free assumptions only.  sat there shows that the contract's ground
+			// facts (path condition, preconditions, callee postconditions) are consistent; it is
+			// reported with the back end suffixed "+ground".
+			var ground []*Term
+			memo := map[*Term]bool{}
+			for _, a := range o.Assume {
+				if !containsQuant(a, memo) {
+					ground = append(ground, a)
+				}
+			}
+			if len(ground) < len(o.Assume) {
+				alts = append(alts, c.Query(ground, goal, nil, opt.timeoutMs))
+			}
 		}
 		jobs = append(jobs, job{o, script, alts, modelScript})
 	}
@@ -110,6 +140,11 @@ func discharge(fx *FnExec, obls []*Obligation, opt dischargeOpts) {
 			if r.Status == "sat" && !j.o.Cover {
 				if r2 := Solve(j.model, opt.workdir, j.o.Name+".model", opt.timeoutMs, false); r2.Status == "sat" {
 					j.o.Output = r2.Output
+				}
+			}
+			if j.o.Cover && j.o.Status != "unsat" && j.o.Status != "sat" && len(j.alts) > 0 {
+				if r2 := Solve(j.alts[0], opt.workdir, j.o.Name+".ground", opt.timeoutMs, false); r2.Status == "sat" {
+					j.o.Status, j.o.Backend = "sat", r2.Backend+"+ground"
 				}
 			}
 			if j.o.Status != "unsat" && !j.o.Cover {
@@ -166,7 +201,11 @@ func cmdFunc(args []string) int {
 	if rep.OutOfSubset != "" {
 		fmt.Println("OUT OF SUBSET:", rep.OutOfSubset)
 	}
-	discharge(rep.fx, rep.Obligations, dischargeOpts{timeoutMs: 10000, workdir: "/tmp/hopvc-work/func", parallel: 6})
+	tmo := 10000
+	if v, err := strconv.Atoi(os.Getenv("HOPVC_TIMEOUT_MS")); err == nil && v > 0 {
+		tmo = v
+	}
+	discharge(rep.fx, rep.Obligations, dischargeOpts{timeoutMs: tmo, workdir: "/tmp/hopvc-work/func", parallel: 6})
 	trace("discharged")
 	for _, o := range rep.Obligations {
 		ok := o.Status == "unsat"
@@ -186,7 +225,7 @@ func cmdFunc(args []string) int {
 			}
 			sort.Strings(ks)
 			for i, k := range ks {
-				if i >= 14 {
+				if i >= modelLines() {
 					fmt.Printf("       … %d more\n", len(ks)-i)
 					break
 				}
@@ -226,4 +265,45 @@ func trace(format string, a ...interface{}) {
 	if !traceStart.IsZero() {
 		fmt.Fprintf(os.Stderr, "[%6dms] %s\n", time.Since(traceStart).Milliseconds(), fmt.Sprintf(format, a...))
 	}
+}
+
+func modelLines() int {
+	if v, err := strconv.Atoi(os.Getenv("HOPVC_MODEL_LINES")); err == nil && v > 0 {
+		return v
+	}
+	return 14
+}
+
+func containsQuant(t *Term, memo map[*Term]bool) bool {
+	if v, ok := memo[t]; ok {
+		return v
+	}
+	r := t.Op == "forall" || t.Op == "exists"
+	if !r {
+		for _, a := range t.Args {
+			if containsQuant(a, memo) {
+				r = true
+				break
+			}
+		}
+	}
+	memo[t] = r
+	return r
+}
+
+func mentionsRng(t *Term, memo map[*Term]bool) bool {
+	if v, ok := memo[t]; ok {
+		return v
+	}
+	r := t.Op == "app" && t.Name == "rng"
+	if !r {
+		for _, a := range t.Args {
+			if mentionsRng(a, memo) {
+				r = true
+				break
+			}
+		}
+	}
+	memo[t] = r
+	return r
 }
